@@ -76,6 +76,8 @@ theorem acqCLoop_nonCS (p all ws got) : (acqCLoop p all ws got).nonCS := by
   cases ws
   · exact callLoop_nonCS ..
   · simp [acqCLoop, Next.nonCS, inCS]
+theorem acqWLoop_nonCS (p ws acc) : (acqWLoop p ws acc).nonCS := by
+  cases ws <;> simp [acqWLoop, Next.nonCS, inCS]
 theorem acqCIter_nonCS (p all rest got) : (acqCIter p all rest got).nonCS := by
   unfold acqCIter; split
   · exact acqCLoop_nonCS ..
@@ -128,6 +130,7 @@ theorem resume_nonCS (k : K) (b : Bool) : (resume k b).nonCS := by
     · exact acqCIter_nonCS ..
   · exact acqCIter_nonCS ..
   · exact callLoop_nonCS ..
+  · exact acqWLoop_nonCS ..
 
 theorem start_nonCS (pw : Pid → List Wid) (op : Op) : (start pw op).nonCS := by
   cases op <;> simp only [start]
@@ -142,6 +145,8 @@ theorem start_nonCS (pw : Pid → List Wid) (op : Op) : (start pw op).nonCS := b
   · exact aliveLoop_nonCS ..
   · split <;> simp [Next.nonCS, inCS]
   · exact acqCLoop_nonCS ..
+  · simp [Next.nonCS, inCS]
+  · exact acqWLoop_nonCS ..
 
 theorem apply_cur_nonCS (th : Thread) (n : Next) (hn : n.nonCS) :
     ∀ cl k, (th.apply n).cur = some (cl, k) → inCS cl.pc = false := by
